@@ -66,7 +66,7 @@ func neighbours(s *big.Int) []*big.Int {
 
 func main() {
 	run := report.New("C11", "exploration")
-	run.Rule("(A) static: a configured CRL of issuer X lists serials of width 1..20; probes = the same serials under other issuers (different DN, swapped RDN order, name with '_1' suffix, prefix/suffix names) and numeric/byte/decimal neighbours of every listed serial under X; (A2) an indirect CRL whose entries name another certificate issuer; (A3) lists forged by a client certificate of the CA (client extensions {bc+ku, no basicConstraints, no keyUsage, neither} x AKI {absent, client's, CA's key id} x issuer name {CA, client}) served at a CDP shared with other certificates of the CA, which must stay accepted; (A4) a configured list replaced by its successor while the validator is down: serials only the superseded list named are accepted once Provision has returned; (A5) lists naming an issuing CA whose keyUsage lacks cRLSign, signed with a foreign key or its own; (B) histories of length <=3 (quick) / <=4 (thorough) over {rejected load: bad signature | parse error after k entries | unhandled critical extension, accepted load A, accepted load B (removes and adds entries), restart} on both backends, after every event every serial ever published is probed; oracle: a probe not in the last accepted list (under its own issuer) must be accepted; non-trivial = case in which a listed control probe was rejected (the CRL really is in force) or a rejected document's serial was probed; distinct = case descriptor")
+	run.Rule("(A) static: a configured CRL of issuer X lists serials of width 1..20; probes = the same serials under other issuers (different DN, swapped RDN order, name with '_1' suffix, prefix/suffix names) and numeric/byte/decimal neighbours of every listed serial under X; (A2) an indirect CRL whose entries name another certificate issuer; (A3) lists forged by a client certificate of the CA (client extensions {bc+ku, no basicConstraints, no keyUsage, neither} x AKI {absent, client's, CA's key id} x issuer name {CA, client}) served at a CDP shared with other certificates of the CA, which must stay accepted; (A4) a configured list replaced by its successor while the validator is down: serials only the superseded list named are accepted once Provision has returned; (A5) lists naming an issuing CA whose keyUsage lacks cRLSign, signed with a foreign key or its own; (A6) issuer names that differ by trailing digits with serials that complete each other; (B) histories of length <=3 (quick) / <=4 (thorough) over {rejected load: bad signature | parse error after k entries | unhandled critical extension, accepted load A, accepted load B (removes and adds entries), restart} on both backends, after every event every serial ever published is probed; oracle: a probe not in the last accepted list (under its own issuer) must be accepted; non-trivial = case in which a listed control probe was rejected (the CRL really is in force) or a rejected document's serial was probed; distinct = case descriptor")
 	run.Assume("lenient CDP mode, healthy origin, signature mode verify", "names differing only in ASN.1 string type or case are the same name under RFC 5280 and are not used as 'other issuer'")
 	scratch, _ := report.Scratch("C11")
 	sut.QuietStderr(filepath.Join(scratch, "stderr.log"))
@@ -427,6 +427,52 @@ func main() {
 				if !bad {
 					run.NonTrivial(desc)
 				}
+			}
+		}
+		chk.Stop()
+		_ = os.RemoveAll(wd)
+	}
+
+	// ------------------------------------------------------------------ (A6) names ending in digits
+	// Issuer names that differ only by trailing digits, with serials that complete each other: the
+	// pair (name "… CA 1", serial 23) is listed; ("… CA 12", 3), ("… CA 12", 34) and ("… CA 123", 4)
+	// are other certificates.
+	for _, backend := range []string{"memory", "disk"} {
+		if !mine() {
+			continue
+		}
+		mkCA := func(cnv string) *pki.CA {
+			return w.Root.Issue(pki.CertOpts{RawSubject: der.Name([]der.ATV{{cn, der.TagUTF8String, cnv}}), IsCA: true})
+		}
+		p1 := mkCA("Plant CA 1")
+		var es []crlgen.Entry
+		for _, v := range []int64{23, 234, 5, 1000} {
+			es = append(es, crlgen.Entry{Serial: big.NewInt(v), Date: gen.BaseTime})
+		}
+		path := "/digits-" + backend + ".crl"
+		w.CRL.Set(path, origin.Good(gen.SpecFor(p1, es).Build(p1.Key).DER))
+		wd := filepath.Join(scratch, "wd-digits-"+backend)
+		_ = os.MkdirAll(wd, 0755)
+		chk, err := l2.Start(l2.Opts{WorkDir: wd, Storage: backend, SigMode: "verify", Fetch: "actively", CRLUrls: []string{w.CRL.URL(path)}, Trusted: []*x509.Certificate{p1.Cert}})
+		if err != nil {
+			run.Violation("digit-names.provision-failed", err.Error(), nil)
+			continue
+		}
+		ctrl, _ := chk.Ask([]*x509.Certificate{p1.Leaf(big.NewInt(23), nil, nil), p1.Cert, w.Root.Cert})
+		for _, pr := range []struct {
+			cnv    string
+			serial int64
+		}{{"Plant CA 12", 3}, {"Plant CA 12", 34}, {"Plant CA 123", 4}, {"Plant CA 11", 0}, {"Plant CA 110", 0}, {"Plant CA ", 123}} {
+			ca := mkCA(pr.cnv)
+			desc := fmt.Sprintf("digit-names backend=%s listed=(Plant CA 1, 23|234|5|1000) probe=(%q, %d)", backend, pr.cnv, pr.serial)
+			rev, err := chk.Ask([]*x509.Certificate{ca.Leaf(big.NewInt(pr.serial), nil, nil), ca.Cert, w.Root.Cert})
+			run.Eval(1)
+			if rev || err != nil {
+				run.Violation("digit-names.other-issuers-certificate-revoked."+backend, fmt.Sprintf("%s: reported revoked (err=%v)", desc, err), &report.Replay{Case: desc})
+				continue
+			}
+			if ctrl {
+				run.NonTrivial(desc)
 			}
 		}
 		chk.Stop()
